@@ -36,7 +36,7 @@ import (
 )
 
 type c20In struct {
-	Klass      int  `json:"klass"`      // 0 gated, 1 after the responder finished, 2 free running
+	Klass      int  `json:"klass"`      // 0 gated, 1 after the responder finished, 2 free running, 3 mutual, 4 cross, 5..10 cross under enforced schedules
 	DelayMs    int  `json:"delay_ms"`   // class 2: how long the responder's GetAddress sleeps
 	Streams    int  `json:"streams"`    // streams per initiator
 	Inits      int  `json:"inits"`      // initiators handshaking concurrently
@@ -94,6 +94,10 @@ type c20KS struct {
 	// onlyHandle: the node also runs handshakes as initiator (which calls GetAddress when it checks
 	// the first response); count and gate only the call made by handshake.Handle
 	onlyHandle bool
+	// classes 5..10: the call made by the node's own outbound handshake (verifyResp of the first
+	// response, inside Connect) waits here when set
+	initGate  chan struct{}
+	initCalls atomic.Int64
 }
 
 func c20CalledFromHandle() bool {
@@ -113,6 +117,13 @@ func c20CalledFromHandle() bool {
 
 func (k *c20KS) GetAddress() common.Address {
 	if k.onlyHandle && !c20CalledFromHandle() {
+		k.mu.Lock()
+		ig := k.initGate
+		k.mu.Unlock()
+		if ig != nil {
+			k.initCalls.Add(1)
+			<-ig
+		}
 		return k.addr
 	}
 	k.calls.Add(1)
@@ -577,6 +588,279 @@ func c20RunCross(t *testing.T, e *vfEnv, class string, in c20In, keyRng *rand.Ra
 	}
 }
 
+// c20RunCrossSched realises the cross-dial schedules 5..10 of coq/check/Check_C20.v (x_pre in
+// coq/model/ConnectRace.v) with the gates of the two key signers and positive synchronisation:
+// every step of the schedule is waited for (a Connect has returned, a handler has entered
+// GetAddress, a registry holds the peer); a step that does not happen within the limit makes the
+// case inconclusive (nothing is emitted).  Node 0 is the node that connects SECOND in 5/7/10 and
+// FIRST in 6/8; the emitted case describes node 0's streams (answered by node 1); for the
+// symmetric classes 5..9 a second case describes node 1's streams under the mirrored class.
+func c20RunCrossSched(t *testing.T, e *vfEnv, class string, in c20In, keyRng *rand.Rand) {
+	slow := time.Duration(e.Slow)
+	limit := 30 * time.Second * slow
+	types := [2]int{in.IType, in.RType}
+	var svc [2]*Service
+	var ks [2]*c20KS
+	var seen [2]*c20Seen
+	var info [2][]byte
+	for x := 0; x < 2; x++ {
+		k := c20Key(keyRng)
+		a := crypto.PubkeyToAddress(k.PublicKey)
+		ks[x] = &c20KS{MockKeySigner: mockkeysigner.NewMockKeySigner(k, a), addr: a, gate: make(chan struct{}), onlyHandle: true}
+		if in.Klass == 5 || in.Klass == 6 {
+			ks[x].open()
+		}
+		s, err := New(&Options{KeySigner: ks[x], Secret: "c20", ListenPort: 0, ListenAddr: "127.0.0.1",
+			PeerType: p2p.PeerType(types[x]), Register: &c20Reg{ans: true}, MetricsReg: prometheus.NewRegistry(),
+			Logger: slog.New(slog.NewTextHandler(io.Discard, &slog.HandlerOptions{Level: slog.LevelError}))})
+		if err != nil {
+			t.Errorf("c20: cross-sched: %v", err)
+			return
+		}
+		svc[x] = s
+		defer s.Close()
+		defer ks[x].open()
+		sn := &c20Seen{m: map[string]p2p.Peer{}}
+		seen[x] = sn
+		desc := c20Desc
+		desc.Handler = func(ctx context.Context, from p2p.Peer, str p2p.Stream) error {
+			msg := new(wrapperspb.StringValue)
+			if err := str.ReadMsg(ctx, msg); err != nil {
+				return err
+			}
+			sn.mu.Lock()
+			sn.m[msg.Value] = from
+			sn.mu.Unlock()
+			return str.WriteMsg(ctx, &wrapperspb.StringValue{Value: "ack:" + msg.Value})
+		}
+		s.AddStreamHandlers(desc)
+		info[x], _ = peer.AddrInfo{ID: s.host.ID(), Addrs: s.host.Addrs()}.MarshalJSON()
+	}
+	ctx, cancel := context.WithTimeout(context.Background(), limit+c20PendingBound*slow)
+	defer cancel()
+	sctx, scancel := context.WithCancel(context.Background())
+	defer scancel()
+
+	var peers [2]p2p.Peer
+	var errs [2]error
+	var done [2]chan struct{}
+	connect := func(x int) {
+		done[x] = make(chan struct{})
+		go func() {
+			defer close(done[x])
+			peers[x], errs[x] = svc[x].Connect(ctx, info[1-x])
+		}()
+	}
+	returned := func(x int) bool {
+		select {
+		case <-done[x]:
+			return true
+		case <-time.After(limit):
+			return false
+		}
+	}
+	inconclusive := func(what string) {
+		t.Logf("c20: cross-sched class %d inconclusive: %s", in.Klass, what)
+	}
+	// x's handler (the responder role of node x) has entered GetAddress and is held there
+	held := func(x int) bool { return c20Until(limit, func() bool { return ks[x].calls.Load() >= 1 }) }
+	var initGate chan struct{}
+	openers := []int{0, 1}
+	switch in.Klass {
+	case 5, 6: // first connects completely, then second connects: shortcut
+		first, second := 1, 0
+		if in.Klass == 6 {
+			first, second = 0, 1
+		}
+		connect(first)
+		if !returned(first) {
+			inconclusive("first Connect did not return")
+			return
+		}
+		firstID := svc[first].host.ID()
+		if !c20Until(limit, func() bool { _, ok := svc[second].peers.isConnected(firstID); return ok }) {
+			inconclusive("the handler of the first handshake did not register the dialler")
+			return
+		}
+		connect(second)
+		if !returned(second) {
+			inconclusive("second Connect did not return")
+			return
+		}
+	case 7, 8: // first connects while the other node's handler is held, then second connects (it dials)
+		first, second := 1, 0
+		if in.Klass == 8 {
+			first, second = 0, 1
+		}
+		connect(first)
+		if !returned(first) || !held(second) {
+			inconclusive("first Connect did not return with the handler held")
+			return
+		}
+		connect(second)
+		if !returned(second) || !held(first) {
+			inconclusive("second Connect did not return with the handler held")
+			return
+		}
+	case 9: // both at once, both handlers held
+		connect(0)
+		connect(1)
+		if !returned(0) || !returned(1) || !held(0) || !held(1) {
+			inconclusive("the Connects did not return with both handlers held")
+			return
+		}
+	case 10: // node 1's Connect is held inside its own handshake; node 0 connects meanwhile
+		initGate = make(chan struct{})
+		ks[1].mu.Lock()
+		ks[1].initGate = initGate
+		ks[1].mu.Unlock()
+		defer func() {
+			select {
+			case <-initGate:
+			default:
+				close(initGate)
+			}
+		}()
+		connect(1)
+		if !c20Until(limit, func() bool { return ks[1].initCalls.Load() >= 1 }) {
+			inconclusive("node 1's Connect did not reach verifyResp")
+			return
+		}
+		connect(0)
+		if !returned(0) || !held(1) {
+			inconclusive("node 0's Connect did not return with the handler held")
+			return
+		}
+		openers = []int{0}
+	}
+
+	var obs [2]c20Obs
+	var wg sync.WaitGroup
+	var streamsDone [2]atomic.Int64
+	var obsMu sync.Mutex
+	total := int64(0)
+	for _, x := range openers {
+		obs[x].Streams = make([]c20Stream, in.Streams)
+		for k := range obs[x].Streams {
+			obs[x].Streams[k] = c20Stream{Res: "pending"}
+		}
+		obs[x].ConnectOK = errs[x] == nil
+		if errs[x] != nil {
+			obs[x].ConnectErr = errs[x].Error()
+			continue
+		}
+		for k := 0; k < in.Streams; k++ {
+			total++
+			wg.Add(1)
+			go func(x, k int) {
+				defer wg.Done()
+				defer streamsDone[x].Add(1)
+				key := fmt.Sprintf("xs-%d-%d", x, k)
+				res := c20Stream{Res: "refused"}
+				defer func() {
+					obsMu.Lock()
+					obs[x].Streams[k] = res
+					obsMu.Unlock()
+				}()
+				str, err := svc[x].NewStream(sctx, peers[x], nil, c20Desc)
+				if err == nil {
+					err = str.WriteMsg(sctx, &wrapperspb.StringValue{Value: key})
+					if err == nil {
+						reply := new(wrapperspb.StringValue)
+						err = str.ReadMsg(sctx, reply)
+						if err == nil && reply.Value != "ack:"+key {
+							err = errors.New("unexpected reply " + reply.Value)
+						}
+					}
+					_ = str.Close()
+				}
+				if err != nil {
+					res.Err = err.Error()
+					if errors.Is(err, context.DeadlineExceeded) || errors.Is(err, context.Canceled) {
+						res.Res = "pending"
+					}
+					return
+				}
+				seen[1-x].mu.Lock()
+				p, ok := seen[1-x].m[key]
+				seen[1-x].mu.Unlock()
+				if !ok {
+					res.Err = "reply without handler record"
+					return
+				}
+				res = c20Stream{Res: "handled", Addr: common.Bytes2Hex(p.EthAddress.Bytes()), Type: int(p.Type)}
+			}(x, k)
+		}
+	}
+	allDone := func() bool { return streamsDone[0].Load()+streamsDone[1].Load() >= total }
+	// the first look at the streams, handlers still held.  Classes 5..9: the answering node has
+	// the opener registered (by its own Connect or by its handler), nothing has to wait: the
+	// streams are given ample time to end.  Class 10: nothing is registered at node 1 and two
+	// handshakes are on record there: the streams must still be waiting after the hold.
+	if in.Klass == 10 {
+		c20Until(300*time.Millisecond*slow+time.Duration(in.HoldMs)*time.Millisecond, allDone)
+	} else {
+		c20Until(20*time.Second*slow, allDone)
+	}
+	for _, x := range openers {
+		obs[x].Early = int(streamsDone[x].Load())
+	}
+	if initGate != nil {
+		close(initGate)
+	}
+	ks[0].open()
+	ks[1].open()
+	if in.Klass == 10 && !returned(1) {
+		inconclusive("node 1's Connect did not return after the release")
+		return
+	}
+	c20Until(c20PendingBound*slow, allDone)
+	scancel()
+	wg.Wait()
+	for _, x := range openers {
+		o := obs[x]
+		o.GA = int(ks[1-x].calls.Load())
+		retAddr, retType := peers[x].EthAddress.Bytes(), int(peers[x].Type)
+		outs := []string{}
+		if !o.ConnectOK {
+			retAddr, retType = nil, 0
+			o.Streams = nil
+		}
+		for _, st := range o.Streams {
+			switch st.Res {
+			case "handled":
+				ty := st.Type
+				if ty < 0 {
+					ty = 99
+				}
+				outs = append(outs, coqApp("SHandled", coqBytes(common.Hex2Bytes(st.Addr)), coqN(uint64(ty))))
+			case "refused":
+				outs = append(outs, "SRefused")
+			default:
+				outs = append(outs, "SPending")
+			}
+		}
+		// node 1's streams: the same world with the two nodes exchanged, i.e. the mirrored class
+		klass := in.Klass
+		if x == 1 {
+			klass = map[int]int{5: 6, 6: 5, 7: 8, 8: 7, 9: 9}[in.Klass]
+		}
+		x := x
+		e.Emit(class, in, o, func(id int) string {
+			return coqRecord("id", coqN(uint64(id)),
+				"klass", coqN(uint64(klass)), "nstreams", coqN(uint64(in.Streams)), "ninit", coqN(1),
+				"i_addr", coqBytes(svc[x].ethAddress.Bytes()), "i_type", coqN(uint64(types[x])), "i_staked", coqBool(true),
+				"r_addr", coqBytes(svc[1-x].ethAddress.Bytes()), "r_type", coqN(uint64(types[1-x])), "r_staked", coqBool(true),
+				"r_ks_ok", coqBool(true),
+				"prior", coqN(0), "prior_ok", coqBool(false), "conn_close_other", coqBool(false),
+				"connect_ok", coqBool(o.ConnectOK),
+				"ret_addr", coqBytes(retAddr), "ret_type", coqN(uint64(retType)),
+				"early", coqN(uint64(o.Early)), "reg_at_gate", coqBool(false),
+				"outcomes", coqList(outs), "ga", coqN(uint64(o.GA)))
+		})
+	}
+}
+
 func c20RunCase(t *testing.T, e *vfEnv, class string, in c20In, keyRng *rand.Rand) {
 	if in.Klass == 3 {
 		c20RunMutual(t, e, class, in, keyRng)
@@ -584,6 +868,10 @@ func c20RunCase(t *testing.T, e *vfEnv, class string, in c20In, keyRng *rand.Ran
 	}
 	if in.Klass == 4 {
 		c20RunCross(t, e, class, in, keyRng)
+		return
+	}
+	if in.Klass >= 5 && in.Klass <= 10 {
+		c20RunCrossSched(t, e, class, in, keyRng)
 		return
 	}
 	slow := time.Duration(e.Slow)
@@ -1162,6 +1450,21 @@ func TestVerifC20(t *testing.T) {
 				in.Streams = 1 + i%3
 				in.DelayMs = []int{0, 1, 5, 20, 100, 300, 0, 2}[i]
 				in.HoldMs = 200 * (i % 2)
+			}))
+		}
+	}
+	// cross dial under enforced schedules (classes 5..10 of Check_C20.v)
+	for _, k := range []int{5, 6, 7, 8, 9, 10} {
+		k := k
+		cross = append(cross, mk(func(in *c20In) { in.Klass = k; in.Streams = 2; in.IType = []int{bidder, provider}[k%2] }))
+	}
+	if e.Tier != "quick" {
+		for i := 0; i < 12; i++ {
+			cross = append(cross, mk(func(in *c20In) {
+				in.Klass = 5 + i%6
+				in.Streams = 1 + i%4
+				in.HoldMs = 300 * (i % 3)
+				in.RType = []int{provider, bidder}[i%2]
 			}))
 		}
 	}
